@@ -34,6 +34,31 @@ inductive Base where
   | date | datetime | time | timedelta | uuid
   deriving DecidableEq, Repr, Inhabited
 
+inductive BytesK where
+  | bytes | bytearray | memoryview
+  deriving DecidableEq, Repr, Inhabited
+
+inductive SeqK where
+  | list | tuple | set | frozenset | deque
+  deriving DecidableEq, Repr, Inhabited
+
+def BytesK.base : BytesK → Base
+  | .bytes => .bytes | .bytearray => .bytearray | .memoryview => .memoryview
+
+def SeqK.base : SeqK → Base
+  | .list => .list | .tuple => .tuple | .set => .set | .frozenset => .frozenset | .deque => .deque
+
+def Base.bytesK? : Base → Option BytesK
+  | .bytes => some .bytes | .bytearray => some .bytearray | .memoryview => some .memoryview | _ => none
+
+def Base.seqK? : Base → Option SeqK
+  | .list => some .list | .tuple => some .tuple | .set => some .set | .frozenset => some .frozenset
+  | .deque => some .deque | _ => none
+
+/-- `set` / `frozenset` (hash iteration order, de-duplication) -/
+def SeqK.isSet : SeqK → Bool
+  | .set => true | .frozenset => true | _ => false
+
 /-- abstract collection classes handled by `to_iter_types` / `to_mapping` -/
 inductive Abc where
   | sequence | iterable | iterator | mapping
@@ -73,8 +98,8 @@ inductive V where
   | complex (re im : FloatV)
   | dec (c : Nat) (d : DecV)
   | str (c : Nat) (s : String)
-  | bytes (k : Base) (c : Nat) (bs : List UInt8)      -- k ∈ {bytes, bytearray, memoryview}
-  | seq (k : Base) (c : Nat) (xs : List V)            -- k ∈ {list, tuple, set, frozenset, deque}
+  | bytes (k : BytesK) (c : Nat) (bs : List UInt8)
+  | seq (k : SeqK) (c : Nat) (xs : List V)
   | dict (c : Nat) (kvs : List (V × V))
   | date (c : Nat) (d : DateV)
   | datetime (c : Nat) (d : DateV) (t : TimeV)
@@ -304,8 +329,8 @@ def V.cls? : V → Option (Base × Nat)
   | .complex _ _ => some (.complex, 0)
   | .dec c _ => some (.decimal, c)
   | .str c _ => some (.str, c)
-  | .bytes k c _ => some (k, c)
-  | .seq k c _ => some (k, c)
+  | .bytes k c _ => some (k.base, c)
+  | .seq k c _ => some (k.base, c)
   | .dict c _ => some (.dict, c)
   | .date c _ => some (.date, c)
   | .datetime c _ _ => some (.datetime, c)
@@ -359,7 +384,7 @@ def isInstT (v : V) : Target → Bool
 
 /-- `multi(v)` (utils/functional.py:7-10): list, set, frozenset, tuple (dict views are outside `V`) -/
 def multi : V → Bool
-  | .seq k _ _ => k == .list || k == .set || k == .frozenset || k == .tuple
+  | .seq k _ _ => (match k with | .deque => false | _ => true)
   | _ => false
 
 def fZero : FloatV → Bool
@@ -421,7 +446,7 @@ mutual
 dicts are compared entry by entry in order (dicts only occur here as enum member values). -/
 def pyeq : V → V → Bool
   | .seq k _ xs, .seq k' _ ys =>
-    if (k == .set || k == .frozenset) && (k' == .set || k' == .frozenset) then
+    if k.isSet && k'.isSet then
       xs.length == ys.length && xs.all (fun x => ys.any (fun y => eqScalar x y))
     else if k == k' then pyeqList xs ys else false
   | .seq _ _ _, _ => false
@@ -444,7 +469,7 @@ end
 mutual
 /-- `hash(v)` does not raise -/
 def hashable : V → Bool
-  | .seq k _ xs => if k == .tuple then hashableList xs else k == .frozenset
+  | .seq k _ xs => (match k with | .tuple => hashableList xs | .frozenset => true | _ => false)
   | .dict _ _ => false
   | .bytes k _ _ => k != .bytearray
   | .dec _ (.nan true) => false          -- "Cannot hash a signaling NaN value"
@@ -474,15 +499,15 @@ def subOf : Target → Nat
   | _ => 0
 
 /-- `t(items)` for `t` a list/tuple/set/frozenset/deque class -/
-def construct (b : Base) (c : Nat) (items : List V) : Outcome V :=
-  if b == .set || b == .frozenset then
+def construct (b : SeqK) (c : Nat) (items : List V) : Outcome V :=
+  if b.isSet then
     if items.all hashable then .ok (.seq b c (dedup items)) else .perr .typeError
   else .ok (.seq b c items)
 
 /-- `iter(v)` as a list; `none` = not iterable (TypeError) -/
 def iterOf : V → Outcome (List V)
   | .seq k _ xs =>
-    if (k == .set || k == .frozenset) && xs.length > 1 then .unmodelled "iteration order of a set"
+    if k.isSet && xs.length > 1 then .unmodelled "iteration order of a set"
     else .ok xs
   | .str _ s => .ok (s.toList.map fun ch => .str 0 (String.singleton ch))
   | .bytes _ _ bs => .ok (bs.map fun b => .int 0 b.toNat)
@@ -528,7 +553,7 @@ def attemptFrom (E : Env) (f : Flags) (v : V) : Outcome V :=
   | .seq k c xs =>
     if multi (.seq k c xs) && !xs.isEmpty then
       if f.ndl && xs.length > 1 then .perr .typeError
-      else if (k == .set || k == .frozenset) && xs.length > 1 then .unmodelled "first element of a set"
+      else if k.isSet && xs.length > 1 then .unmodelled "first element of a set"
       else match xs with
         | x :: _ => .ok x
         | [] => .ok v
@@ -536,11 +561,19 @@ def attemptFrom (E : Env) (f : Flags) (v : V) : Outcome V :=
   | .enum k i => E.enumValue k i
   | _ => .ok v
 
+/-- `bs.decode(errors=…)`; the empty byte string decodes to the empty text -/
+def decodeB (P : Prims) (strict : Bool) (bs : List UInt8) : Outcome String :=
+  if bs.isEmpty then .ok "" else P.decode strict bs
+
+/-- `json.loads(s, strict=…)`; the empty text is not JSON -/
+def jsonLoadsS (P : Prims) (strict : Bool) (s : String) : Outcome V :=
+  if s == "" then .perr .jsonDecode else P.jsonLoads strict s
+
 /-- transform.py:161-166 -/
 def fromByteLike (P : Prims) (f : Flags) (v : V) : Outcome V :=
   match v with
   | .bytes _ _ bs => do
-    let s ← P.decode f.ndl bs
+    let s ← decodeB P f.ndl bs
     pure (.str 0 s)
   | _ => .ok v
 
@@ -608,7 +641,8 @@ def decimalOf (P : Prims) (d : V) : Outcome DecV :=
   | .float _ f => .ok (decOfFloatExact f)
   | .dec _ x => .ok x
   | .str _ s => decOfStr P (pyStrip s)
-  | .seq k _ _ => if k == .tuple || k == .list then .unmodelled "Decimal(tuple)" else .perr .typeError
+  | .seq k _ _ => (match k with
+    | .tuple => .unmodelled "Decimal(tuple)" | .list => .unmodelled "Decimal(tuple)" | _ => .perr .typeError)
   | _ => .perr .typeError
 
 /-- `int(d)` for a Decimal -/
@@ -668,7 +702,7 @@ def toStr (P : Prims) (E : Env) (f : Flags) (c : Nat) (v : V) : Outcome V :=
     pure (.str c s)
 
 /-- `to_bytes` :238-253 -/
-def toBytes (P : Prims) (E : Env) (f : Flags) (b : Base) (c : Nat) (v : V) : Outcome V := do
+def toBytes (P : Prims) (E : Env) (f : Flags) (b : BytesK) (c : Nat) (v : V) : Outcome V := do
   let d ← attemptFrom E f v
   match d with
   | .bytes _ _ bs => pure (.bytes b c bs)
@@ -679,7 +713,7 @@ def toBytes (P : Prims) (E : Env) (f : Flags) (b : Base) (c : Nat) (v : V) : Out
     pure (.bytes b c s.toUTF8.toList)
 
 /-- the tail of `to_array_types` after the string guesses (:298-308) -/
-def arrayTail (f : Flags) (b : Base) (c : Nat) (d : V) : Outcome V :=
+def arrayTail (f : Flags) (b : SeqK) (c : Nat) (d : V) : Outcome V :=
   match d with
   | .dict _ kvs =>
     if b == .set then
@@ -700,15 +734,15 @@ def splitFirstSep (s : String) : List String → Option (List V)
     | _ => splitFirstSep s rest
 
 /-- `t(data)` for a `multi` value -/
-def constructFrom (b : Base) (c : Nat) (v : V) : Outcome V :=
+def constructFrom (b : SeqK) (c : Nat) (v : V) : Outcome V :=
   match v with
   | .seq k _ xs =>
-    if (k == .set || k == .frozenset) && xs.length > 1 && !(b == .set || b == .frozenset)
+    if k.isSet && xs.length > 1 && !b.isSet
     then .unmodelled "iteration order of a set" else construct b c xs
   | _ => .unmodelled "construct from a non-sequence"
 
 /-- the string guesses of `to_array_types` (:268-293) -/
-def arrayOfString (P : Prims) (f : Flags) (b : Base) (c : Nat) (s0 : String) : Outcome V :=
+def arrayOfString (P : Prims) (f : Flags) (b : SeqK) (c : Nat) (s0 : String) : Outcome V :=
   let s := pyStrip s0
   if bracketed s then
     match P.jsonLoads true s with
@@ -728,8 +762,8 @@ def arrayOfString (P : Prims) (f : Flags) (b : Base) (c : Nat) (s0 : String) : O
     | Option.none => arrayTail f b c (.str 0 s)
 
 /-- `to_array_types` :255-309 -/
-def toArray (P : Prims) (f : Flags) (b : Base) (c : Nat) (v : V) : Outcome V :=
-  if isInstT v (.cls b c) then .ok v else
+def toArray (P : Prims) (f : Flags) (b : SeqK) (c : Nat) (v : V) : Outcome V :=
+  if isInstT v (.cls b.base c) then .ok v else
   if multi v then constructFrom b c v else
   if f.nec then .perr .typeError else
   fromByteLike P f v >>= fun d =>
@@ -760,7 +794,7 @@ def qsDict : V → Outcome (List (V × V))
 
 /-- the string branch of `to_dict` (:347-378) -/
 def dictOfString (P : Prims) (E : Env) (f : Flags) (c : Nat) (s0 : String) : Outcome V :=
-  match P.jsonLoads f.ndl s0 with
+  match jsonLoadsS P f.ndl s0 with
   | .ok j => do let kvs ← dictOf j; pure (.dict c kvs)
   | .perr .jsonDecode =>
     let s := pyStrip s0
@@ -916,7 +950,7 @@ def toBool (P : Prims) (f : Flags) (v : V) : Outcome V :=
     if (← eqSmall v 0) then .ok (.bool false) else
     if f.nec then .perr .typeError else do
     let d ← (match v with
-      | .bytes .bytes _ bs => do let s ← P.decode true bs; pure (V.str 0 s)
+      | .bytes .bytes _ bs => do let s ← decodeB P true bs; pure (V.str 0 s)
       | _ => pure v)
     let s ← pyStr P d
     let rep := pyLower s
@@ -1144,7 +1178,7 @@ def toUuid (P : Prims) (f : Flags) (c : Nat) (v : V) : Outcome V :=
   | .bytes k _ bs =>
     if k == .memoryview then .perr .typeError else do
     -- `try: return t(data.decode()) except ValueError: return t(bytes=data)`
-    let n ← Outcome.orElseV (P.decode true bs >>= P.uuidOfStr)
+    let n ← Outcome.orElseV (decodeB P true bs >>= P.uuidOfStr)
       (if bs.length != 16 then .perr .valueError
        else if k == .bytearray then .escape (.other "AssertionError")   -- uuid.py: `assert isinstance(bytes, bytes_)`
        else .ok (bytesToNat bs))
@@ -1277,8 +1311,12 @@ def resolve : Target → Option Conv
 def runConv (P : Prims) (E : Env) (f : Flags) (t : Target) (v : V) : Conv → Outcome V
   | .null => toNull f v
   | .str => toStr P E f (subOf t) v
-  | .bytes => (match t with | .cls b c => toBytes P E f b c v | _ => .unmodelled "target")
-  | .array => (match t with | .cls b c => toArray P f b c v | _ => .unmodelled "target")
+  | .bytes => (match t with
+    | .cls b c => (match b.bytesK? with | some k => toBytes P E f k c v | Option.none => .unmodelled "target")
+    | _ => .unmodelled "target")
+  | .array => (match t with
+    | .cls b c => (match b.seqK? with | some k => toArray P f k c v | Option.none => .unmodelled "target")
+    | _ => .unmodelled "target")
   | .dict => toDict P E f (subOf t) v
   | .float => toFloat P E f (subOf t) v
   | .int => toInteger P E f (subOf t) v
